@@ -70,7 +70,7 @@ def estimators_native(vc):
         a, b = E.interval(f)
         Fa, Fb = np.asarray(E.cdf(np.array([a, b])))
         Pa, Pb = np.asarray(E(np.array([a, b])))
-        vc.ensures("interval_holds_requested_probability", abs((Fb - Fa) - f) < 5e-3)
+        vc.ensures("interval_holds_requested_probability", abs((Fb - Fa) - f) < min(5e-3, 0.1 * f))
         vc.ensures("interval_ends_have_equal_density", abs(Pa - Pb) < 0.02 * pg.max())
     # moments of the estimated density itself (premise: negligible mass outside the estimator's own range)
     mu, var, skw, kur = E.moments()
